@@ -14,6 +14,9 @@ pub const DISARM: i64 = 7;
 pub const SNAPMAPS: i64 = 8;
 pub const SNAPTHREADS: i64 = 9;
 
+/// `nr` for `inject`: any system call number (the marker call itself is never injected)
+pub const ANY_NR: i64 = -1;
+
 pub const SCOPE_THREAD: i64 = 0;
 pub const SCOPE_PROCESS: i64 = 1;
 pub const SCOPE_CHILDREN: i64 = 2;
